@@ -838,6 +838,25 @@ func LiveTasks() []string {
 	return out
 }
 
+// TaskIDs returns the ids of all tasks created so far, finished or not.
+//
+//go:norace
+func TaskIDs() []string {
+	s := cur.Load()
+	if s == nil {
+		return nil
+	}
+	raceDisable()
+	s.mu.Lock()
+	var out []string
+	for _, t := range s.tasks {
+		out = append(out, t.ID)
+	}
+	s.mu.Unlock()
+	raceEnable()
+	return out
+}
+
 // SetDaemon marks the calling task as a harness helper excluded from leak reports.
 //
 //go:norace
